@@ -8,15 +8,27 @@ CONSTANTS
   Sp0 = 2
   Methods = {"SN", "MPS"}
   Twos = {"no", "add"}
+  ConvVars = {"dflt"}
+  BnVars = {"dflt"}
+  SnoVars = {1, 3}
   AllowPl = FALSE
   AllowExcl = TRUE
   AllowReuse = TRUE
+  AllowLin3 = FALSE
+  AllowDrop = TRUE
   AllowFindings = FALSE
+  MaxHist = 2
+VIEW ViewNoHist
+INVARIANT InvConvertOk
 INVARIANT InvFnPreserved
+INVARIANT InvImportedConfig
 INVARIANT InvUserParams
 INVARIANT InvUserFn
+INVARIANT InvUserOpts
 INVARIANT InvModeKept
+INVARIANT InvFlagsLast
 INVARIANT InvExportIso
 INVARIANT InvExportLiteral
 INVARIANT InvBnAccount
+INVARIANT InvNasConfig
 INVARIANT InvWellFormed
